@@ -2,6 +2,7 @@ import PGA.Proofs.SchemeRelabel
 import PGA.Proofs.Aromatize
 import PGA.Proofs.AromatizeLiteral
 import PGA.Proofs.DecomposeRelabel
+import PGA.Proofs.RingPresentation
 import PGA.Props.C02
 /-!
 # C03 — descriptors do not depend on how the molecule is written
@@ -285,6 +286,77 @@ theorem C03_decompose_relabel (S : SchemeDef) {π : Nat → Nat} {m m' : Mol} (i
   have hm' := iso.wf hm
   have R := toInput_relabel S (iso.aromatizeBenson hm hm') (wf_aromatizeBenson m hm) (wf_aromatizeBenson m' hm') hq hs hcap hcap'
   exact PGA.Scheme.C03_descriptors_relabel R hcf
+
+/-- **The matcher does not see how the rings are presented**: for a well-formed graph and any ring list `rs'` that
+presents the same rings (`RingsSame`: each ring's atom list rotated/reflected at will, the list reordered at will), an
+assignment embeds a query in the graph with `rs'` exactly when it embeds it in the graph with its own ring list —
+ring-atom prefixes, ring sizes, ring counts and the `cyclic`/`linear` prefixes included. -/
+theorem C03_embeds_ring_presentation (m : Mol) (hm : m.wf = true) (rs' : List (List Nat)) (h : RingsSame m.rings rs')
+    (q : Query) (f : List Nat) : Embeds q { m with rings := rs' } f ↔ Embeds q m f :=
+  embeds_rings m hm rs' h q f
+
+/-- **C03 end to end, presentation of the rings (proved part).** The decomposition of a graph does not depend on where
+RDKit starts each ring's atom list, which way round it walks it, or in which order it lists the rings — provided no two
+rings that pass Benson's check share a bond (`EligibleRingsBondDisjoint`, decidable; without it the statement is false:
+finding F3, `C03_aromatize_order_full_fails`).  Further hypotheses as in `C03_decompose_relabel`. -/
+theorem C03_decompose_ring_presentation_partial (S : SchemeDef) (m : Mol) (rs' : List (List Nat))
+    (h : RingsSame m.rings rs') (hd : EligibleRingsBondDisjoint m)
+    (hm : m.wf = true) (hq : S.wf = true) (hs : S.noStar = true)
+    (hcap : maxRaw S (aromatizeBenson m) < maxMatches)
+    (hcap' : maxRaw S { aromatizeBenson m with rings := rs' } < maxMatches) (hcf : ChainFree S.remaps) :
+    (decompose S { m with rings := rs' } = .error .patternMatch ↔ decompose S m = .error .patternMatch) ∧
+    ∀ res res', decompose S m = .ok res → decompose S { m with rings := rs' } = .ok res' → ∀ t, res'.get t = res.get t := by
+  have ha := wf_aromatizeBenson m hm
+  have hr : RingsSame (aromatizeBenson m).rings rs' := by
+    have : (aromatizeBenson m).rings = m.rings := aromatizeRings_rings m.rings m
+    rw [this]; exact h
+  have R := toInput_rings_relabel S (aromatizeBenson m) ha rs' hr hq hs hcap hcap'
+  have key := PGA.Scheme.C03_descriptors_relabel R hcf
+  unfold decompose
+  rw [aromatizeBenson_rings m rs' h hd]
+  exact key
+
+/-- **The full statement** (no guard on the rings): false of the code as it is — `C03_decompose_ring_presentation_full_fails`. -/
+def C03_decompose_ring_presentation_full : Prop :=
+  ∀ (S : SchemeDef) (m : Mol) (rs' : List (List Nat)), RingsSame m.rings rs' → m.wf = true → S.wf = true → S.noStar = true →
+    maxRaw S (aromatizeBenson m) < maxMatches → maxRaw S (aromatizeBenson { m with rings := rs' }) < maxMatches →
+    ChainFree S.remaps →
+    ∀ res res', decompose S m = .ok res → decompose S { m with rings := rs' } = .ok res' → ∀ t, res'.get t = res.get t
+
+/-- a scheme for the witness: one centre entry matching every atom, one correction descriptor counting the aromatic
+carbons that carry a methyl group -/
+def probeScheme : SchemeDef :=
+  { centres := [⟨"X", "X", ⟨"a", [], [⟨"x", ⟨none, .any, .free⟩, []⟩], [], []⟩⟩],
+    descs := [⟨"ArMe", ⟨"d", [], [⟨"c1", ⟨some .aromatic, .elem 6, .free⟩, []⟩,
+                                   ⟨"c2", ⟨none, .elem 6, .free⟩, [.conn false ⟨.eq, 3⟩ ⟨none, .elem 1, .free⟩ .single]⟩],
+                          [⟨1, 0, .single⟩], []⟩⟩],
+    remaps := [] }
+
+set_option maxRecDepth 100000 in
+/-- **F3 end to end, in the model.** On 1-methylnaphthalene the descriptor "aromatic carbon carrying a methyl group" is
+counted once with RDKit's ring order and not at all with the two rings listed the other way round: the decomposition
+depends on the order of the ring list. -/
+theorem C03_decompose_ring_presentation_full_fails : ¬ C03_decompose_ring_presentation_full := by
+  intro h
+  have hs : RingsSame methylnaphthalene.rings [[6, 7, 8, 9, 10, 5], [1, 10, 5, 4, 3, 2]] :=
+    ⟨methylnaphthalene.rings, by
+      exact List.Forall₂.cons (.refl _) (List.Forall₂.cons (.refl _) List.Forall₂.nil), by decide⟩
+  have hcf : ChainFree probeScheme.remaps := by intro k ts hk; simp [probeScheme, lookupRemap] at hk
+  have e1 : (decompose probeScheme methylnaphthalene).map (fun c => c.get "ArMe") = .ok 1 := by decide +kernel
+  have e2 : (decompose probeScheme { methylnaphthalene with rings := [[6, 7, 8, 9, 10, 5], [1, 10, 5, 4, 3, 2]] }).map
+      (fun c => c.get "ArMe") = .ok 0 := by decide +kernel
+  cases h1 : decompose probeScheme methylnaphthalene with
+  | error e => rw [h1] at e1; cases e1
+  | ok res =>
+    cases h2 : decompose probeScheme { methylnaphthalene with rings := [[6, 7, 8, 9, 10, 5], [1, 10, 5, 4, 3, 2]] } with
+    | error e => rw [h2] at e2; cases e2
+    | ok res' =>
+      have := h probeScheme methylnaphthalene _ hs (by decide) (by decide) (by decide) (by decide +kernel) (by decide +kernel) hcf
+        res res' h1 h2 "ArMe"
+      rw [h1] at e1; rw [h2] at e2
+      simp only [Except.map, Except.ok.injEq] at e1 e2
+      rw [e1, e2] at this
+      exact absurd this (by decide)
 
 /-! ### non-vacuity: a C–H fragment and the same fragment with its two atoms swapped -/
 def swap01 (i : Nat) : Nat := if i = 0 then 1 else if i = 1 then 0 else i
